@@ -1,9 +1,9 @@
 package main
 
 import (
-	"strings"
 	"encoding/hex"
 	"fmt"
+	"strings"
 
 	astits "github.com/asticode/go-astits"
 )
